@@ -3,7 +3,11 @@ package props
 import (
 	"fmt"
 	"math/rand"
+	"os"
+	"runtime"
+	"strings"
 	"sync"
+	"sync/atomic"
 	"time"
 
 	"verif/harness/evid"
@@ -14,6 +18,8 @@ import (
 )
 
 const c17Timeout = 1500 * time.Millisecond
+
+var c17Progress atomic.Int64
 
 const (
 	sNot = iota
@@ -83,6 +89,34 @@ func C17(cfg Cfg) int {
 	run.Assume = []string{"expiry is real-time in the code: assertions are made only when the interval clock decides the session's state", "contributions are only exchanged by Execute between listed participants (the statement's cooperating peers)"}
 	seqs := cfg.N(240, 5000)
 	workers := 16
+	// Every message must come back (accepted or refused).  If nothing returns for a minute while sequences are
+	// still running, the lifecycle is stuck.
+	stopWD := make(chan struct{})
+	defer close(stopWD)
+	go func() {
+		last, lastChange := int64(-1), time.Now()
+		for {
+			select {
+			case <-stopWD:
+				return
+			case <-time.After(time.Second):
+			}
+			if cur := c17Progress.Load(); cur != last {
+				last, lastChange = cur, time.Now()
+				continue
+			}
+			if time.Since(lastChange) > 60*time.Second {
+				buf := make([]byte, 1<<20)
+				dump := string(buf[:runtime.Stack(buf, true)])
+				if strings.Contains(dump, "services/process/standard.(*Service)") {
+					run.Violate("key-generation messages no longer return (accepted or refused) on an instance: calls are blocked inside the process service", dump[:min(len(dump), 6000)])
+				} else {
+					run.Inconclusive("no key-generation message returned for 60 s")
+				}
+				os.Exit(run.Finish())
+			}
+		}
+	}()
 	var wg sync.WaitGroup
 	var seqNo sync.Mutex
 	next := 0
@@ -137,6 +171,7 @@ func c17Sequence(run *evid.Run, cfg Cfg, c *rig.Cluster, ids []uint64, k int) {
 		b0 := time.Now()
 		_, err := c.Inst[inst].Stack.ReceiverH.Prepare(rig.PeerCtx(peer), req)
 		b1 := time.Now()
+		c17Progress.Add(1)
 		w.mu.Lock()
 		defer w.mu.Unlock()
 		s := w.get(inst, acct)
@@ -188,6 +223,7 @@ func c17Sequence(run *evid.Run, cfg Cfg, c *rig.Cluster, ids []uint64, k int) {
 			_, err = c.Inst[inst].Stack.ReceiverH.Contribute(rig.PeerCtx(c.Endpoint(ids[(int(inst))%3]).Name), &pb.ContributeRequest{Account: acct, Secret: sec, VerificationVector: vv})
 		}
 		b1 := time.Now()
+		c17Progress.Add(1)
 		w.mu.Lock()
 		defer w.mu.Unlock()
 		s := w.get(inst, acct)
